@@ -363,6 +363,7 @@ class B:
             edge = None if u < 0.5 else (v, d)
         self.edge = edge
         self.history = []
+        self.skipped = 0
         self.since = (len(mon.arrays), len(mon.held))     # what this program registers starts here
         self.declined = 0
         self.evaluated = 0
@@ -1641,6 +1642,104 @@ def p_scalar_index(b):
                 b.step(f"Slice(t={kname}={pos}) #{rep_}", lambda: sl(t=k))
                 b.step(f"Variable(i={kname}={pos}) #{rep_}", lambda: v(i=k))
                 b.step(f"(v+1)(i={kname}) #{rep_}", lambda: (v + 1)(i=k))
+
+
+_SWEEP_SKIP = {"__init__", "__new__", "__call__", "__class__", "__init_subclass__", "__subclasshook__", "__reduce__",
+               "__reduce_ex__", "__getstate__", "__setstate__", "__setattr__", "__delattr__", "__getattribute__",
+               "__dir__", "__sizeof__", "__format__", "__getitem__", "__class_getitem__", "__contains__"}
+_SWEEP_ARGS = {
+    "align": lambda t, b: (tuple(reversed(list(t.inputs))),),
+    "reduce": lambda t, b: (ops.add,),
+    "sample": lambda t, b: (frozenset(k for k, d in t.inputs.items()),),
+    "unscaled_sample": None,
+    "eager_subs": lambda t, b: (tuple((k, Number(0, d.size)) for k, d in list(t.inputs.items())[:1] if isinstance(d.dtype, int)),),
+    "eager_reduce": lambda t, b: (ops.add, frozenset(list(t.inputs)[:1])),
+    "eager_unary": lambda t, b: (ops.neg,),
+    "reshape": lambda t, b: ((-1,),) if t.output.shape else ((),),
+    "new_arange": lambda t, b: ("q", 3),
+    "materialize": lambda t, b: (Variable("q", Bint[3]),),
+    "requires_grad_": None,
+    "astype": lambda t, b: ("float32",),
+    "__eq__": lambda t, b: (t,), "__ne__": lambda t, b: (t,), "__add__": lambda t, b: (1.0,), "__radd__": lambda t, b: (1.0,),
+    "__mul__": lambda t, b: (2.0,), "__rmul__": lambda t, b: (2.0,), "__sub__": lambda t, b: (1.0,), "__rsub__": lambda t, b: (1.0,),
+    "__truediv__": lambda t, b: (2.0,), "__rtruediv__": lambda t, b: (2.0,), "__pow__": lambda t, b: (2.0,),
+    "__lt__": lambda t, b: (0.0,), "__le__": lambda t, b: (0.0,), "__gt__": lambda t, b: (0.0,), "__ge__": lambda t, b: (0.0,),
+    "__min__": lambda t, b: (0.0,), "__max__": lambda t, b: (0.0,),
+}
+
+
+def sweep_members(cls):
+    """Public methods / properties of a term class found in the class dicts of its MRO (up to Funsor), at run
+    time: (name, 'method'|'property').  Dunders that are ordinary protocol methods are included."""
+    import inspect
+    out = {}
+    for c in cls.__mro__:
+        if c is object:
+            continue
+        for n, v in vars(c).items():
+            if n in out or n in _SWEEP_SKIP:
+                continue
+            if n.startswith("_") and not (n.startswith("__") and n.endswith("__")):
+                continue
+            if isinstance(v, property) or type(v).__name__ == "lazy_property":
+                out[n] = "property"
+            elif inspect.isfunction(v):
+                out[n] = "method"
+    return sorted(out.items())
+
+
+@program
+def p_method_sweep(b):
+    """Generic method sweep: every public method / property of the classes of a few held terms (Tensor over an
+    owning array and over a view, with +-inf / nan cells; bint Tensor; Number; Variable; Gaussian; Delta; lazy
+    terms) is called with no arguments (or a simple argument from a small table); unknown signatures are
+    skipped and counted.  Each call is a checked history step."""
+    import inspect
+    ev = b.rng.choice([(), (2,)])
+    special = b.rng.choice([(float("inf"), "some"), (float("-inf"), "some"), (float("nan"), "one"), (float("inf"), "one")])
+    raw = b.inject(np.asarray(b.npr.randn(3, *ev)), always=special)
+    own = np.array(raw)                                   # owns its memory (base is None)
+    b.mon.arrays.append(["owning array", own, digest(own), own, digest(own)])
+    if b.mon.mode == "ro":
+        own.flags.writeable = False
+    t_own = b.hold(Tensor(own, b.inputs([("i", 3)])))
+    t_view = b.tensor([("i", 3), ("j", 2)], ev)           # layout drawn by the monitor (view / broadcast / F-order)
+    t_0d = b.hold(Tensor(b.mon.register(np.array(float("inf"))), OrderedDict()))
+    terms = [t_own, t_view, t_0d, b.tensor([("i", 3)], (), kind="int:3", dtype=3), b.hold(Number(2.0)),
+             b.hold(Variable("x", Reals[2])), b.gaussian([("i", 2)], [("x", (2,))]),
+             b.hold(Delta("x", b.tensor([("i", 2)], (2,)))), b.hold(Slice("t", 1, 5, 2, 6))]
+    with lazy:
+        terms.append(b.hold(t_own + t_view))
+        terms.append(b.hold(Cat("i", (t_own, t_own))))
+    chosen = [t_own] + b.rng.sample(terms[1:], 1)
+    for t in chosen:
+        cname = type(t).__name__
+        for name, kind in sweep_members(type(t)):
+            if kind == "property":
+                b.step(f"{cname}.{name}", lambda: getattr(t, name))
+                continue
+            try:
+                m = getattr(t, name)
+                sig_ = inspect.signature(m)
+            except (TypeError, ValueError, AttributeError):
+                b.skipped += 1
+                continue
+            req = [p for p in sig_.parameters.values()
+                   if p.default is p.empty and p.kind in (p.POSITIONAL_ONLY, p.POSITIONAL_OR_KEYWORD)]
+            if name in _SWEEP_ARGS:
+                mk = _SWEEP_ARGS[name]
+                if mk is None:
+                    b.skipped += 1
+                    continue
+                args = mk(t, b)
+            elif not req:
+                args = ()
+            else:
+                b.skipped += 1        # unknown signature
+                continue
+            b.step(f"{cname}.{name}{args if args else '()'}"[:90], lambda: m(*args))
+    for f_ in (repr, str, hash, bool, len, funsor.util.quote if hasattr(funsor.util, "quote") else repr):
+        b.step(f"{getattr(f_, '__name__', 'f')}(t_own)", lambda: f_(t_own) and None)
 
 
 def run_program(name, mon, rng, edge="auto"):
